@@ -116,3 +116,90 @@ class rescan_files:
                                      path_hash_causes=ty.SeqOf(ty.TupleOf(ty.Str, FileHashRec, ty.EnumOf(HashUpdateCause)))),
                          forall=dict(j=ty.Int), invariant=_rf_inv),
              1: LoopSpec()}
+
+
+# ---------------------------------------------------------------- rescan_env_vars: a changed variable sends its steps back
+
+
+def _env_value(name):
+    """os.getenv(name): None or a string, a function of the name (the environment does not change during the scan)."""
+    d = cur().decls
+    isn = d.fun("env.unset", [STR], BOOL)(S(name))
+    val = d.fun("env.value", [STR], STR)(S(name))
+    return sym.SymOpt(isn, sym.wrap_str(val))
+
+
+class _OsEnv:
+    @staticmethod
+    def getenv(name, default=None):
+        if default is not None:
+            raise sym.Unsupported("os.getenv with a default")
+        return _env_value(name)
+
+
+def _changed(row) -> tm.T:
+    """The stored value of the row differs from the current one (None = unset on either side)."""
+    _node, _label, name, old = row
+    new = _env_value(name)
+    old_none = old.isnone if isinstance(old, sym.SymOpt) else tm.mk_bool(old is None)
+    old_val = S(old.payload) if isinstance(old, sym.SymOpt) else (S(old) if old is not None else tm.mk_str(""))
+    same = tm.Or(tm.And(new.isnone, old_none), tm.And(tm.Not(new.isnone), tm.Not(old_none), tm.Eq(S(new.payload), old_val)))
+    return tm.Not(same)
+
+
+def _rev_workflow(args):
+    db = DbStub("db", [("SELECT node, label, name, value FROM env_var JOIN node", ty.TupleOf(ty.Int, ty.Str, ty.Str, ty.Opt(ty.Str)))])
+    wf = ty.ObjOf(common.Workflow, dict(), name="Workflow").fresh("workflow")
+    wf._fields["db"] = db
+    return wf
+
+
+def _rev_inv(e):
+    """(a) every changed row seen so far has its step among the steps to rerun, with the row's label; (b) every step
+    to rerun comes from a changed row seen so far."""
+    m = e.steps_to_rerun
+    if not isinstance(m, sym.SymMap):
+        return True
+    c = cur()
+    i = I(e.i)
+    j, k, j2 = tm.Var(c.fresh_name("j!bound"), INT), tm.Var(c.fresh_name("k!bound"), INT), tm.Var(c.fresh_name("j!bound"), INT)
+    from vc import vcrt
+
+    a = vcrt.quantified([(j.s, INT)], lambda: tm.Implies(
+        tm.And(tm.Le(tm.mk_int(0), j), tm.Lt(j, i), _changed(e.seq.elem(j))),
+        m.contains_t(e.seq.elem(j)[0])))
+
+    def b_body():
+        row = e.seq.elem(j2)
+        return tm.Implies(m.contains_t(sym.wrap_int(k)), tm.Exists([(j2.s, INT)], tm.And(
+            tm.Le(tm.mk_int(0), j2), tm.Lt(j2, i), tm.Eq(I(row[0]), k), _changed(row))))
+
+    b = vcrt.quantified([(k.s, INT)], b_body)
+    return [wrap_bool(a), wrap_bool(b)]
+
+
+def _rev_mark_iteration(e):
+    marks = [ev for ev in e.iter_trace if ev.kind == "mark_step_pending"]
+    return wrap_bool(tm.mk_bool(len(marks) == 1 and marks[0].step is e.current))
+
+
+def _rev_finish(c, outcome, args, old):
+    if outcome[0] != "return":
+        return
+    dropped = [e for e in c.trace if e.kind in ("delete_hash", "set_state")]
+    c.prove("only_marks_steps_pending", tm.mk_bool(not dropped), kind="trace")
+
+
+@contract("stepup/core/startup.py::rescan_env_vars", props=["C04", "C05"])
+class rescan_env_vars:
+    """A step is marked pending at start-up exactly when one of the environment variables it tracks (rows of attached
+    steps) has a stored value different from the current one; each such step once; nothing else is done to it (its
+    hash decides later whether it really runs)."""
+
+    args = dict(workflow=_rev_workflow, reporter=ty.Make(Reporter))
+    env = dict(os=_OsEnv, Step=lambda wf, i, label: label, fmt_env_value=lambda v: "value")
+    finish = _rev_finish
+    modifies = []
+    loops = {0: LoopSpec(locals=dict(steps_to_rerun=ty.MapOf(ty.Int, ty.Str), reported_names=ty.SetOf(ty.Str)),
+                         invariant=_rev_inv),
+             1: LoopSpec(step_post=_rev_mark_iteration)}
